@@ -29,10 +29,74 @@ COUNT_REF = (
     "    return len(losses) - min_idx - 1\n")
 
 
+def shared_mutable_class_state(tree):
+    """[(class node, attribute, line)]: a class-level mutable literal that instances mutate in place and that no method
+    rebinds on self - one object shared by every instance (and by every call of a loop that creates an instance)."""
+    out = []
+    for cn in [n for n in ast.walk(tree) if isinstance(n, ast.ClassDef)]:
+        cands = {}
+        for st in cn.body:
+            tgt, val = None, None
+            if isinstance(st, ast.Assign) and len(st.targets) == 1 and isinstance(st.targets[0], ast.Name):
+                tgt, val = st.targets[0].id, st.value
+            elif isinstance(st, ast.AnnAssign) and isinstance(st.target, ast.Name) and st.value is not None:
+                tgt, val = st.target.id, st.value
+            if tgt is None:
+                continue
+            mutable = isinstance(val, (ast.List, ast.Dict, ast.Set)) or (
+                isinstance(val, ast.Call) and isinstance(val.func, ast.Name) and val.func.id in ("list", "dict", "set", "defaultdict"))
+            if mutable:
+                cands[tgt] = st.lineno
+        if not cands:
+            continue
+        rebound, mutated = set(), set()
+        for fn in [x for x in cn.body if isinstance(x, ast.FunctionDef)]:
+            me = fn.args.args[0].arg if fn.args.args else "self"
+            for n in ast.walk(fn):
+                if isinstance(n, ast.Attribute) and isinstance(n.value, ast.Name) and n.value.id == me and n.attr in cands:
+                    if isinstance(n.ctx, ast.Store):
+                        rebound.add(n.attr)
+                if isinstance(n, ast.Call) and isinstance(n.func, ast.Attribute) and n.func.attr in (
+                        "append", "extend", "insert", "update", "add", "setdefault", "pop", "clear", "remove") and \
+                        isinstance(n.func.value, ast.Attribute) and isinstance(n.func.value.value, ast.Name) and \
+                        n.func.value.value.id == me and n.func.value.attr in cands:
+                    mutated.add(n.func.value.attr)
+                if isinstance(n, ast.Subscript) and isinstance(n.ctx, ast.Store) and isinstance(n.value, ast.Attribute) and \
+                        isinstance(n.value.value, ast.Name) and n.value.value.id == me and n.value.attr in cands:
+                    mutated.add(n.value.attr)
+        for a in sorted(mutated - rebound):
+            out.append((cn, a, cands[a]))
+    return out
+
+
+def rule_shared_state(prog, rep):
+    rep.rule("C16.state", "no class of the training modules keeps loop state (a loss record, a best-so-far) in a mutable "
+                          "class-level attribute that instances mutate in place: such a list is shared by every fit of the "
+                          "process, so `min(losses)` ranges over earlier runs", minimum=1)
+    n = 0
+    for m in prog.modules.values():
+        if not m.name.startswith("flowjax.train"):
+            continue
+        n += 1
+        bad = shared_mutable_class_state(m.tree)
+        if bad:
+            for cn, a, line in bad:
+                rep.violated("C16.state", f"{m.relpath}:{line}", f"{m.name}.{cn.name}.{a}:per-instance",
+                             f"{cn.name}.{a} is a mutable class attribute mutated through self and never rebound in a method: "
+                             f"all instances (all fits in one process) share one object, so the recorded history / running "
+                             f"minimum of one fit leaks into the next")
+        else:
+            rep.holds("C16.state", m.relpath, f"{m.name}:no-shared-mutable-class-state", "no such attribute")
+    ctl = ast.parse("class B:\n    losses: list = []\n    def update(self, v):\n        self.losses.append(v)\n")
+    rep.check(len(shared_mutable_class_state(ctl)) == 1, "C16.state", "-", "control:shared-class-list-recognised",
+              "a class-level list appended through self is reported", "the analysis no longer recognises shared class state")
+
+
 def run(prog: Program, rep: Report, tier: str):
     rule_step_summary(prog, rep)
     rule_fit_to_data(prog, rep)
     rule_variational(prog, rep)
+    rule_shared_state(prog, rep)
     if tier == "thorough":
         from ..audit import audit_generic
         audit_generic(prog, rep, "C16")
@@ -94,6 +158,9 @@ def rule_fit_to_data(prog, rep):
                            "static half of the initial partition, together with the loss record", minimum=2)
     m = prog.modules.get(DF)
     fn = m.functions.get("fit_to_data") if m else None
+    if fn is not None:
+        from .loops import dealias_container_members
+        fn = dealias_container_members(fn)
     if fn is None:
         rep.undecided("C16.count", "-", "fit_to_data", "function vanished")
         return
@@ -222,7 +289,15 @@ def rule_variational(prog, rep):
         rep.undecided("C16.count", "-", "fit_to_variational_target", "function vanished")
         return
     site = f"{m.relpath}:{fn.lineno}"
+    from .loops import scalarise_record_state
+    fn = scalarise_record_state(m, fn)
     body = body_without_docstring(fn)
+    stored = {n.id for n in ast.walk(fn) if isinstance(n, ast.Name) and isinstance(n.ctx, ast.Store)}
+    if not {"params", "opt_state", "losses", "best_params"} <= stored:
+        rep.undecided("C16.count", site, "fit_to_variational_target:state",
+                      f"the loop state is not kept in the variables params / opt_state / losses / best_params "
+                      f"(missing {sorted({'params', 'opt_state', 'losses', 'best_params'} - stored)}): not analysed")
+        return
     loops = [s for s in body if isinstance(s, ast.For)]
     if len(loops) != 1:
         rep.undecided("C16.count", site, "fit_to_variational_target:loop", "expected one loop")
